@@ -37,7 +37,11 @@ CLAIMS = {
         technique="Lean 4 proof (case analysis of the header parser) + differential correspondence on malformed input incl. exception kinds",
         design="DESIGN.md §5 C15"),
     'C01': dict(
-        text="Proved for all inputs: the one-level round trip (split, name pieces by ordinal, file under the table's row names in order, trim, join = identity on text "
+        text="Proved for all inputs: C01_cascade - for EVERY list of levels (positional levels of any width and separator, repetition levels, any depth) and every text canonical "
+             "for it, splitting level by level down to the leaves, filing the non-empty pieces under their positions and encoding back in table order with trailing empties "
+             "trimmed returns the text character for character (instance: the four ER7 levels of a segment body, any delimiter set); the recursive model Hl7.Casc is compared with "
+             "the REAL element tree (positional paths of every leaf, and to_er7) on every canonical segment text of the run. Also the one-level round trip on string-named children "
+             "(split, name pieces by ordinal, file under the table's row names in order, trim, join = identity on text "
              "with no trailing empty piece, any separator, any table length) and, per version by kernel evaluation over the regenerated tables, that every segment "
              "not on the guard list has exactly the gap-free ordered shape that lemma needs, two datatype levels down. That the full parser/encoder model "
              "(Hl7.Pe, Hl7.Msg, with all validation branches) is that cascade is NOT yet a theorem: it is tied to /repo and to the property by the canonical "
@@ -174,7 +178,8 @@ CLAIMS = {
         text="Proved on the model of Validator.validate (structured error list; validated against /repo incl. error order), one structure level at a time and for every "
              "structure and child list: a required row without a matching child yields 'Missing required child'; more children than a row's maximum yields 'Child limit "
              "exceeded'; a non-Z child that is no row yields 'Invalid children detected' naming it; a level whose counts are within bounds, whose children are declared "
-             "and whose children's reports are empty reports nothing; the report is a function of the tree, is_valid iff no errors, raising form = first error. The "
+             "and whose children's reports are empty reports nothing; the report is a function of the tree, is_valid iff no errors, raising form = first error; and for the WHOLE tree of groups (C04_tree, mutual induction): validNode reports "
+             "nothing IFF the node conforms - every child declared or a Z segment, every cardinality met, every child conforming, recursively down to the segments (C04_message for the message level). The "
              "whole-tree equivalence 'conforms iff no errors' is decided on /repo by an independent declarative conformance judgement over generated instances and "
              "single-point mutations (partial); it is false for structures with duplicate rows (finding D17).",
         note=NOTE_COMMON + "Reference = standard tables (profiles: C18, not yet claimed); warnings only through the report-file consistency clause.",
